@@ -246,7 +246,9 @@ def gen_exact_quota(rng, p=4, kind='fixed'):
         q = N * S // (seats + 1) + 1 if kind == 'fixed' else (N // (seats + 1) + 1) * S
         if f < 0: continue
         nf = max(2 if f >= 2 else (1 if f == 1 else 0), (f * S) // q + 1 + rng.randint(0, 1)) if f > 0 else 0
-        lines = [(k, [1, 2]), (a, [2])]
+        # later preferences on the ballots of the candidate who lands on the quota (a zero surplus must move nothing)
+        t1 = [3 + j for j in range(nf)]; rng.shuffle(t1); t2 = t1[:]; rng.shuffle(t2)
+        lines = [(k, [1, 2] + t1[:rng.randint(0, len(t1))]), (a, [2] + t2[:rng.randint(0, len(t2))])]
         if v - k > 0: lines.append((v - k, [1]))
         for i in range(nf):
             share = f // nf + (1 if i < f % nf else 0)
